@@ -11,40 +11,50 @@ Record inst := {
   i_vid : bool;            (* verify_in_drop *)
   i_panicked : bool;       (* no_std only: `panicked` *)
   i_helper : N;            (* helper clones reachable from default_impl_delegator_cell: the helper, the helper's helper, .. *)
-  i_lent : N               (* clones of the mock stored in this instance's value chain *)
+  i_lent : N;              (* clones of the mock stored in this instance's value chain *)
+  i_calls : list (N * N)   (* of these, the ones owned by a value whose Drop makes a (swallowed) call on its clone: (method, argument),
+                              in the order the values were lent = the order in which the chain drops them *)
 }.
 
 Definition new_original : inst :=
   {| i_alive := true; i_original := true; i_torn := false; i_vid := true; i_panicked := false;
-     i_helper := 0; i_lent := 0 |}.
+     i_helper := 0; i_lent := 0; i_calls := [] |}.
 
 (* impl Clone for Unimock *)
 Definition clone_of (i : inst) : inst :=
   {| i_alive := true; i_original := false; i_torn := false; i_vid := i_vid i; i_panicked := false;
-     i_helper := 0; i_lent := 0 |}.
+     i_helper := 0; i_lent := 0; i_calls := [] |}.
 
 Definition set_torn (i : inst) : inst :=
   {| i_alive := i_alive i; i_original := i_original i; i_torn := true; i_vid := i_vid i; i_panicked := i_panicked i;
-     i_helper := i_helper i; i_lent := i_lent i |}.
+     i_helper := i_helper i; i_lent := i_lent i; i_calls := i_calls i |}.
 Definition set_dead (i : inst) : inst :=
   {| i_alive := false; i_original := i_original i; i_torn := i_torn i; i_vid := i_vid i; i_panicked := i_panicked i;
-     i_helper := 0; i_lent := 0 |}.
+     i_helper := 0; i_lent := 0; i_calls := [] |}.
 Definition set_vid (i : inst) (b : bool) : inst :=
   {| i_alive := i_alive i; i_original := i_original i; i_torn := i_torn i; i_vid := b; i_panicked := i_panicked i;
-     i_helper := i_helper i; i_lent := i_lent i |}.
+     i_helper := i_helper i; i_lent := i_lent i; i_calls := i_calls i |}.
 Definition set_panicked (i : inst) : inst :=
   {| i_alive := i_alive i; i_original := i_original i; i_torn := i_torn i; i_vid := i_vid i; i_panicked := true;
-     i_helper := i_helper i; i_lent := i_lent i |}.
+     i_helper := i_helper i; i_lent := i_lent i; i_calls := i_calls i |}.
 (* AsRef<DefaultImplDelegator>: get_or_init(clone of self); [n] levels: a default body (or an answer
    function) running on the helper may itself delegate, which creates the helper's own helper *)
 Definition set_helper_levels (i : inst) (n : N) : inst :=
   {| i_alive := i_alive i; i_original := i_original i; i_torn := i_torn i; i_vid := i_vid i; i_panicked := i_panicked i;
-     i_helper := N.max (i_helper i) n; i_lent := i_lent i |}.
+     i_helper := N.max (i_helper i) n; i_lent := i_lent i; i_calls := i_calls i |}.
 Definition set_helper (i : inst) : inst := set_helper_levels i 1.
 (* make_ref(self.clone()) *)
 Definition add_lent (i : inst) : inst :=
   {| i_alive := i_alive i; i_original := i_original i; i_torn := i_torn i; i_vid := i_vid i; i_panicked := i_panicked i;
-     i_helper := i_helper i; i_lent := i_lent i + 1 |}.
+     i_helper := i_helper i; i_lent := i_lent i + 1; i_calls := i_calls i |}.
+(* make_ref(Caller { u: self.clone(), m, a }) where Caller's Drop calls u.m(a) and swallows a panic *)
+Definition add_lent_call (i : inst) (m a : N) : inst :=
+  {| i_alive := i_alive i; i_original := i_original i; i_torn := i_torn i; i_vid := i_vid i; i_panicked := i_panicked i;
+     i_helper := i_helper i; i_lent := i_lent i + 1; i_calls := (i_calls i ++ [(m, a)])%list |}.
+(* the value chain has been dropped *)
+Definition clear_calls (i : inst) : inst :=
+  {| i_alive := i_alive i; i_original := i_original i; i_torn := i_torn i; i_vid := i_vid i; i_panicked := i_panicked i;
+     i_helper := i_helper i; i_lent := i_lent i; i_calls := [] |}.
 
 Fixpoint upd {X} (l : list X) (i : nat) (x : X) : list X :=
   match l, i with
